@@ -477,7 +477,7 @@ fn check_overlaps<B: FA>(c: &PCase, t: &Table<B>, obs: &mut Obs) -> CheckResult 
     let mut any = false;
     for (j, b) in t.asserts.iter().enumerate() {
         let want = c.a.col == t.descs[j].col && meets(&sa, &t.sets[j]);
-        any |= want;
+        any |= want && t.descs[j] != c.a;
         let ab = a.overlaps_with(b);
         let ba = b.overlaps_with(&a);
         obs.comparisons += 2;
@@ -498,7 +498,7 @@ fn check_overlaps<B: FA>(c: &PCase, t: &Table<B>, obs: &mut Obs) -> CheckResult 
             if want { "intersect" } else { "are disjoint" }
         );
     }
-    obs.label(if any { "has-overlapping-partner" } else { "no-overlapping-partner" });
+    obs.label(if any { "overlaps-another-assertion" } else { "overlaps-only-itself" });
     Ok(())
 }
 
